@@ -623,6 +623,15 @@ func (env *SpecEnv) unary(e *SExpr) Val {
 	return nil
 }
 
+// seqAbs is the abstract value of a list of byte strings. Assumption (listed in evidence):
+// a list is not mutated in place after it was first abstracted, so it is identified by its
+// slice header; sameSeq supplies extensionality between different headers.
+func (env *SpecEnv) seqAbs(s VSlice) *Term {
+	t := Ite(Eq(s.Len, IntLit(0)), UF("EmptySeq", SInt), UF("seqid", SInt, s.Arr, s.Off, s.Len))
+	env.st.addFact(Eq(UF("seqlen", SInt, t), s.Len))
+	return t
+}
+
 // unwrapAtomic lets specs write pb.lastHeight for the value of an atomic cell.
 func unwrapAtomic(v Val) Val {
 	s, ok := v.(VStruct)
@@ -952,6 +961,46 @@ func (env *SpecEnv) call(e *SExpr) Val {
 	case "select":
 		a := env.ev(args[0])
 		return VInt{T: Select(env.scalar(a, e), env.evalInt(args[1]))}
+	case "seq":
+		sl, ok := env.ev(args[0]).(VSlice)
+		if !ok {
+			env.fail("seq expects a slice")
+		}
+		return VInt{T: env.seqAbs(sl)}
+	case "sameSeq":
+		a, ok1 := env.ev(args[0]).(VSlice)
+		b, ok2 := env.ev(args[1]).(VSlice)
+		if !ok1 || !ok2 {
+			env.fail("sameSeq expects two slices of byte strings")
+		}
+		// pointwise equality of two lists of byte strings; when assumed, extensionality also
+		// gives equality of the abstract sequences
+		sub := &SExpr{Kind: "forall", Bound: []string{"i$"}, Args: []*SExpr{{Kind: "call", Args: []*SExpr{{Kind: "ident", Name: "$sameAt"}}}}}
+		_ = sub
+		positive := env.goal && !env.neg
+		var k *Term
+		if positive {
+			k = env.st.freshInt("sk_i")
+			env.st.skolems = append(env.st.skolems, k)
+		} else {
+			env.x.fresh++
+			k = Sym(fmt.Sprintf("i?%d", env.x.fresh), SInt)
+		}
+		ea := env.st.load(VPtr{Ref: a.Arr, Root: types.NewSlice(a.Elem), Path: []PathEl{{Field: -1, Index: Add(a.Off, k)}}})
+		eb := env.st.load(VPtr{Ref: b.Arr, Root: types.NewSlice(b.Elem), Path: []PathEl{{Field: -1, Index: Add(b.Off, k)}}})
+		sa, oka := ea.(VSlice)
+		sb, okb := eb.(VSlice)
+		if !oka || !okb {
+			env.fail("sameSeq: elements are not byte strings")
+		}
+		point := Implies(And(Ge(k, IntLit(0)), Lt(k, a.Len)), Eq(env.st.bval(sa), env.st.bval(sb)))
+		if positive {
+			return VInt{T: And(Eq(a.Len, b.Len), point)}
+		}
+		if env.goal {
+			env.fail("sameSeq in a negative position of a goal is not supported")
+		}
+		return VInt{T: And(Eq(a.Len, b.Len), Forall([]*Term{k}, point), Eq(env.seqAbs(a), env.seqAbs(b)))}
 	case "ctxDone":
 		a, ok := env.ev(args[0]).(VIface)
 		if !ok {
@@ -1144,6 +1193,17 @@ func (env *SpecEnv) havocLoc(e *SExpr) {
 		}
 		st.heapSet(l.Name, storeN(arr, l.Idx, st.freshSym("mod:"+l.Name, es)))
 	}
+}
+
+// havocHeap gives every heap array with this name (and its leaf suffixes) a fresh value.
+func (env *SpecEnv) havocHeap(name string) {
+	st := env.st
+	for _, k := range sortedKeys(st.heap) {
+		if k == name || strings.HasPrefix(k, name+"#") {
+			st.heapSet(k, st.freshSym("mod:"+k, st.heap[k].Sort))
+		}
+	}
+	st.havocNames = append(st.havocNames, name)
 }
 
 func (env *SpecEnv) modelLoc(owner Val, name string) (heap string, ref *Term, sort string, ok bool) {
